@@ -95,6 +95,8 @@ def enc(a):
 
 
 def dec(d):
+    if d['kind'] == 'gen':
+        return gen_from_recipe(d)
     if d['kind'] == 'c':
         a = np.array([complex(re, im) for re, im in d['data']], dtype=complex)
     elif d['kind'] == 'i':
@@ -662,7 +664,8 @@ def o_update_inv(case):
     full = np.zeros(n, dtype=d64.dtype)
     full[:d64.size] = d64
     target = a + np.diag(full)
-    conds = [cond2(a)] + [cond2(a + np.diag(np.concatenate([full[:i + 1], np.zeros(n - i - 1)]))) for i in range(d64.size)]
+    steps = range(d64.size) if n <= 32 else ([d64.size - 1] if d64.size else [])
+    conds = [cond2(a)] + [cond2(a + np.diag(np.concatenate([full[:i + 1], np.zeros(n - i - 1)]))) for i in steps]
     tol = tol_for(max(conds) ** 2, n, 500, inv_a, d)
     e = np.abs(twin(out) @ target - np.eye(n)).max() if n else 0.0
     if not e <= tol:
@@ -1070,19 +1073,394 @@ def o_independence(case):
         r1 = flat(f(a, b))
         c1 = [np.array(x, copy=True) for x in r1]
         f(b, a)
+        for x in r1:                       # R13: the caller reuses / overwrites what it was handed
+            if isinstance(x, np.ndarray) and x.size and x.flags.writeable:
+                x[...] = 7
         r3 = flat(f(a, b))
+        r1 = c1
         for x, c, y in zip(r1, c1, r3):
             if not same(x, c):
                 return 'R3:earlier-result-changed:' + nm, 'a result changed after a later call'
             if not same(np.asarray(y), c):
-                return 'R3:hidden-state:' + nm, 'the same arguments gave a different result the second time'
+                return 'R3/R13:hidden-state:' + nm, ('the same arguments gave a different result the second time '
+                                                      '(after the caller overwrote the first result)')
             for z in (a, b):
                 if isinstance(x, np.ndarray) and x.size and np.shares_memory(x, z):
                     return 'R3:output-aliases-input:' + nm, 'a result shares memory with an argument'
     return None
 
 
+# ------------------------------------------------ R8 - R14 (argument forms, index types, mixed types, ...)
+def genrec(seed, shape, cplx, form='gauss'):
+    """compact replayable recipe of a large matrix (R14): regenerated by dec()"""
+    return {'kind': 'gen', 'seed': int(seed), 'shape': list(shape), 'cplx': bool(cplx), 'form': form}
+
+
+def gen_from_recipe(d):
+    rs = np.random.RandomState(d['seed'])
+    m, k = d['shape']
+    x = rs.randn(m, k) + (1j * rs.randn(m, k) if d['cplx'] else 0)
+    if d['form'] == 'herm':           # Hermitian, well separated eigenvalues
+        q = np.linalg.qr(x)[0]
+        return (q * np.arange(1.0, m + 1)) @ H(q)
+    if d['form'] == 'cov':            # white noise + one interferer (eigenvalue 1 with multiplicity m-1)
+        v = x[:, :1]
+        return np.eye(m) + v @ H(v)
+    return x
+
+
+INDEX_TYPES = ['int', 'int8', 'int16', 'int32', 'int64', 'uint8', 'uint16', 'uint32', 'uint64', 'intp', '0-d', 'bool']
+
+
+def mk_index(n, t):
+    """the count / index n in the given Python or numpy form (None when the type cannot hold it)"""
+    n = int(n)
+    if t == 'int':
+        return n
+    if t == 'bool':
+        return bool(n) if n in (0, 1) else None
+    if t == '0-d':
+        return np.array(n)
+    info = np.iinfo(getattr(np, t))
+    if not (info.min <= n <= info.max):
+        return None
+    return getattr(np, t)(n)
+
+
+def flat_out(r):
+    return list(r) if isinstance(r, tuple) else [r]
+
+
+def same_out(r1, r2):
+    a, b = flat_out(r1), flat_out(r2)
+    return len(a) == len(b) and all(same(np.asarray(x), np.asarray(y)) for x, y in zip(a, b))
+
+
+def o_argument_forms(case):
+    """R8: positional = keyword = default-given-explicitly; documented equivalent entry points agree"""
+    proj, met, misc, conv = _impl()
+    a, b, mm = dec(case['A']), dec(case['B']), dec(case['M'])
+    hm = a @ H(a)
+    cov = H(a) @ a + np.eye(a.shape[1])
+    inv_c = np.linalg.inv(cov)
+    dg = np.linspace(0.5, 1.5, a.shape[1])
+    n = int(case['n'])
+    x, y, bits = float(case['x']), float(case['y']), int(case['bits'])
+    u, s, vh = np.linalg.svd(a)
+    ang = met.calc_principal_angles(a, b)
+    forms = [
+        ('calcProjectionMatrix', lambda: proj.calcProjectionMatrix(a), [lambda: proj.calcProjectionMatrix(A=a)]),
+        ('calcOrthogonalProjectionMatrix', lambda: proj.calcOrthogonalProjectionMatrix(a),
+         [lambda: proj.calcOrthogonalProjectionMatrix(A=a)]),
+        ('Projection', lambda: proj.Projection(a).Q, [lambda: proj.Projection(A=a).Q]),
+        ('Projection.project', lambda: proj.Projection(a).project(mm), [lambda: proj.Projection(a).project(M=mm)]),
+        ('Projection.oProject', lambda: proj.Projection(a).oProject(mm), [lambda: proj.Projection(a).oProject(M=mm)]),
+        ('Projection.reflect', lambda: proj.Projection(a).reflect(mm), [lambda: proj.Projection(a).reflect(M=mm)]),
+        ('calc_principal_angles', lambda: met.calc_principal_angles(a, b),
+         [lambda: met.calc_principal_angles(matrix1=a, matrix2=b), lambda: met.calc_principal_angles(a, matrix2=b),
+          lambda: met.calc_principal_angles(matrix2=b, matrix1=a)]),
+        ('calc_chordal_distance', lambda: met.calc_chordal_distance(a, b),
+         [lambda: met.calc_chordal_distance(matrix1=a, matrix2=b), lambda: met.calc_chordal_distance(matrix2=b, matrix1=a)]),
+        ('calc_chordal_distance_2', lambda: met.calc_chordal_distance_2(a, b),
+         [lambda: met.calc_chordal_distance_2(matrix1=a, matrix2=b), lambda: met.calc_chordal_distance_2(a, matrix2=b)]),
+        ('calc_chordal_distance_from_principal_angles', lambda: met.calc_chordal_distance_from_principal_angles(ang),
+         [lambda: met.calc_chordal_distance_from_principal_angles(principalAngles=ang)]),
+        ('gmd', lambda: misc.gmd(u, s, vh),
+         [lambda: misc.gmd(u, s, vh, 0.0), lambda: misc.gmd(u, s, vh, tol=0.0), lambda: misc.gmd(U=u, S=s, V_H=vh),
+          lambda: misc.gmd(V_H=vh, S=s, U=u, tol=0.0)]),
+        ('peig', lambda: misc.peig(hm, n), [lambda: misc.peig(A=hm, n=n), lambda: misc.peig(n=n, A=hm)]),
+        ('leig', lambda: misc.leig(hm, n), [lambda: misc.leig(A=hm, n=n), lambda: misc.leig(hm, n=n)]),
+        ('least_right_singular_vectors', lambda: misc.least_right_singular_vectors(a, min(n, a.shape[1])),
+         [lambda: misc.least_right_singular_vectors(A=a, n=min(n, a.shape[1])),
+          lambda: misc.least_right_singular_vectors(n=min(n, a.shape[1]), A=a)]),
+        ('get_principal_component_matrix', lambda: misc.get_principal_component_matrix(a, 1),
+         [lambda: misc.get_principal_component_matrix(A=a, num_components=1),
+          lambda: misc.get_principal_component_matrix(a, num_components=1)]),
+        ('calc_whitening_matrix', lambda: misc.calc_whitening_matrix(cov), [lambda: misc.calc_whitening_matrix(cov_matrix=cov)]),
+        ('update_inv_sum_diag', lambda: misc.update_inv_sum_diag(inv_c, dg),
+         [lambda: misc.update_inv_sum_diag(invA=inv_c, diagonal=dg), lambda: misc.update_inv_sum_diag(diagonal=dg, invA=inv_c)]),
+        ('dB2Linear', lambda: conv.dB2Linear(y), [lambda: conv.dB2Linear(valueIndB=y)]),
+        ('linear2dB', lambda: conv.linear2dB(x), [lambda: conv.linear2dB(valueInLinear=x)]),
+        ('dBm2Linear', lambda: conv.dBm2Linear(y), [lambda: conv.dBm2Linear(valueIndBm=y)]),
+        ('linear2dBm', lambda: conv.linear2dBm(x), [lambda: conv.linear2dBm(valueInLinear=x)]),
+        ('SNR_dB_to_EbN0_dB', lambda: conv.SNR_dB_to_EbN0_dB(y, bits),
+         [lambda: conv.SNR_dB_to_EbN0_dB(SNR=y, bits_per_symb=bits), lambda: conv.SNR_dB_to_EbN0_dB(bits_per_symb=bits, SNR=y)]),
+        ('EbN0_dB_to_SNR_dB', lambda: conv.EbN0_dB_to_SNR_dB(y, bits),
+         [lambda: conv.EbN0_dB_to_SNR_dB(EbN0=y, bits_per_symb=bits), lambda: conv.EbN0_dB_to_SNR_dB(y, bits_per_symb=bits)]),
+    ]
+    for nm, pos, alts in forms:
+        r0 = pos()
+        for j, alt in enumerate(alts):
+            try:
+                r = alt()
+            except TypeError as e:
+                return 'R8:keyword-form-rejected:' + nm, 'form %d: %r' % (j, e)
+            if not same_out(r0, r):
+                return 'R8:keyword-form-differs:' + nm, 'alternative form %d gives a different result' % j
+    # equivalent entry points
+    p = proj.calcProjectionMatrix(a)
+    op = proj.calcOrthogonalProjectionMatrix(a)
+    obj = proj.Projection(a)
+    eq = [
+        ('module alias = static method', p, proj.Projection.calcProjectionMatrix(a)),
+        ('static method through an instance', p, obj.calcProjectionMatrix(a)),
+        ('Projection(A).Q', p, obj.Q),
+        ('Projection(A).oQ', op, obj.oQ),
+        ('orthogonal alias = static method', op, proj.Projection.calcOrthogonalProjectionMatrix(a)),
+        ('project = Q.dot(M)', p.dot(mm), obj.project(mm)),
+        ('oProject = oQ.dot(M)', op.dot(mm), obj.oProject(mm)),
+        ('linear2dBm(x) = linear2dB(1000 x)', conv.linear2dB(x * 1000.), conv.linear2dBm(x)),
+        ('dBm2Linear(y) = dB2Linear(y) / 1000', conv.dB2Linear(y) / 1000., conv.dBm2Linear(y)),
+    ]
+    for nm, r1, r2 in eq:
+        if not same(np.asarray(r1), np.asarray(r2)):
+            return 'R8:equivalent-entry-points-differ:' + nm.split(' ')[0], nm
+    sc = nz(np.abs(mm).max() if mm.size else 0)
+    if mm.size and not np.abs(obj.reflect(mm) - (mm - 2 * p.dot(mm))).max() <= 1e-12 * sc * max(1.0, cond2(a) ** 2):
+        return 'R8:equivalent-entry-points-differ:reflect', 'reflect(M) != M - 2 P M'
+    ncols = hm.shape[1]
+    vp, dp = misc.peig(hm, n)
+    vl, dl = misc.leig(hm, ncols)
+    if not (same(dp, dl[::-1][:n]) and same(vp, vl[:, ::-1][:, :n])):
+        return 'R8:equivalent-entry-points-differ:peig/leig', 'peig(A, n) is not leig(A, ncols) reversed and cut to n'
+    e1 = conv.SNR_dB_to_EbN0_dB(y, bits)
+    if not abs(e1 - (y - conv.linear2dB(bits))) <= 1e-12 * max(1.0, abs(y)):
+        return 'R8:equivalent-entry-points-differ:EbN0', 'SNR_dB_to_EbN0_dB(y, b) != y - linear2dB(b)'
+    # scalar = 0-d array = length-1 array
+    for nm, fn, v in (('dB2Linear', conv.dB2Linear, y), ('linear2dB', conv.linear2dB, x),
+                      ('dBm2Linear', conv.dBm2Linear, y), ('linear2dBm', conv.linear2dBm, x),
+                      ('SNR_dB_to_EbN0_dB', lambda t: conv.SNR_dB_to_EbN0_dB(t, bits), y),
+                      ('EbN0_dB_to_SNR_dB', lambda t: conv.EbN0_dB_to_SNR_dB(t, bits), y)):
+        r0 = float(fn(v))
+        for form, val, get in (('0-d', np.array(v), lambda r: float(r)), ('length-1', np.array([v]), lambda r: float(r[0])),
+                               ('1x1', np.array([[v]]), lambda r: float(r[0, 0]))):
+            r = fn(val)
+            if np.shape(r) != np.shape(val) or not abs(get(r) - r0) <= 1e-15 * max(1.0, abs(r0)):
+                return 'R8:scalar-vs-array-form:%s:%s' % (nm, form), '%s(%r)=%r, scalar result %r' % (nm, val, r, r0)
+    return None
+
+
+def o_index_forms(case):
+    """R9: counts / indexes as Python int, numpy integers of every width, unsigned, intp, 0-d array, bool"""
+    _, _, misc, conv = _impl()
+    a = dec(case['A'])                  # m x c
+    hm = dec(case['Hm'])                # Hermitian
+    n, k, bits = int(case['n']), int(case['k']), int(case['bits'])
+    y = float(case['y'])
+    big = ':n>256' if max(n, k) > 256 else ''
+    ref = {
+        'peig': misc.peig(hm, min(n, hm.shape[1])), 'leig': misc.leig(hm, min(n, hm.shape[1])),
+        'least_right_singular_vectors': misc.least_right_singular_vectors(a, min(n, a.shape[1])),
+        'get_principal_component_matrix': misc.get_principal_component_matrix(a, k),
+        'SNR_dB_to_EbN0_dB': conv.SNR_dB_to_EbN0_dB(y, bits), 'EbN0_dB_to_SNR_dB': conv.EbN0_dB_to_SNR_dB(y, bits),
+    }
+    for t in case['types']:
+        calls = [
+            ('peig', lambda v: misc.peig(hm, v), min(n, hm.shape[1])),
+            ('leig', lambda v: misc.leig(hm, v), min(n, hm.shape[1])),
+            ('least_right_singular_vectors', lambda v: misc.least_right_singular_vectors(a, v), min(n, a.shape[1])),
+            ('get_principal_component_matrix', lambda v: misc.get_principal_component_matrix(a, v), k),
+            ('SNR_dB_to_EbN0_dB', lambda v: conv.SNR_dB_to_EbN0_dB(y, v), bits),
+            ('EbN0_dB_to_SNR_dB', lambda v: conv.EbN0_dB_to_SNR_dB(y, v), bits),
+        ]
+        for nm, fn, val in calls:
+            v = mk_index(val, t)
+            if v is None:
+                continue
+            try:
+                r = fn(v)
+            except Exception as e:
+                return 'R9:index-type-rejected:%s:%s%s' % (nm, t, big), '%s with a %s count %r: %r' % (nm, t, v, e)
+            if nm.endswith('_dB'):
+                ok = abs(float(r) - float(ref[nm])) <= 1e-12 * max(1.0, abs(float(ref[nm])))
+            else:
+                ok = same_out(ref[nm], r)
+            if not ok:
+                return 'R9:index-type-changes-result:%s:%s%s' % (nm, t, big), \
+                    '%s with the count %d given as %s differs from the Python int result' % (nm, val, t)
+        # the guard n > ncols must also work for every type
+        v = mk_index(hm.shape[1] + 1, t)
+        if v is not None and t != 'bool':
+            for nm, fn in (('peig', misc.peig), ('leig', misc.leig)):
+                try:
+                    fn(hm, v)
+                    return 'R9:guard-not-applied:%s:%s%s' % (nm, t, big), 'n = ncols + 1 as %s accepted' % t
+                except ValueError:
+                    pass
+    return None
+
+
+MIXES = [('f64', 'c128'), ('c128', 'f64'), ('f32', 'c128'), ('c64', 'f64'), ('i16', 'f64'), ('i32', 'c128'),
+         ('f32', 'f64'), ('i8', 'c64')]
+
+
+def cast_as(x, code):
+    x = np.asarray(x)
+    if code == 'f64':
+        return np.array(x.real, dtype=np.float64)
+    if code == 'f32':
+        return np.array(x.real, dtype=np.float32)
+    if code == 'c128':
+        return np.array(x, dtype=np.complex128)
+    if code == 'c64':
+        return np.array(x, dtype=np.complex64)
+    return np.array(np.rint(x.real), dtype={'i8': np.int8, 'i16': np.int16, 'i32': np.int32}[code])
+
+
+def o_mixed_types(case):
+    """R10: arguments of one call whose element types differ (real next to complex, float32 next to
+    complex128, integer next to float) give the result of the uniformly promoted twins; nothing is truncated to
+    the type of the first argument"""
+    proj, met, misc, conv = _impl()
+    ca, cb = case['mix']
+    a, b = cast_as(dec(case['A']), ca), cast_as(dec(case['B']), cb)
+    common = np.result_type(a.dtype, b.dtype, np.float32)
+    ta, tb = a.astype(common), b.astype(common)
+    tag = ':%s+%s' % (ca, cb)
+    e = eps_of(a, b)
+    tol = max(200 * e, 400 * e * max(cond2(a), cond2(b)) ** 2 * a.shape[0])
+    d = three_distances(a, b)
+    dt = three_distances(ta, tb)
+    dr = math.sqrt(ref_chordal_sq(a, b))
+    for nm, x, yv in zip(('calc_chordal_distance', 'calc_chordal_distance_2', 'principal-angles'), d, dt):
+        if not (abs(x * x - yv * yv) <= tol and abs(x * x - dr * dr) <= tol):
+            return 'R10:mixed-dtype-differs:' + nm + tag, 'mixed %r, promoted twin %r, reference %r' % (x, yv, dr)
+    # projection of a matrix of another element type
+    mm = cast_as(dec(case['M']), cb)
+    obj = proj.Projection(a)
+    for op in ('project', 'oProject', 'reflect'):
+        r = call('Projection.' + op, getattr(obj, op), mm)
+        rt_ = getattr(proj.Projection(ta), op)(mm.astype(common))
+        if np.iscomplexobj(mm) and not np.iscomplexobj(r):
+            return 'R10:truncated-to-first-type:Projection.' + op + tag, 'complex M, result dtype %s' % r.dtype
+        if np.asarray(r).dtype.kind not in 'fc':
+            return 'R10:integer-result:Projection.' + op + tag, 'result dtype %s' % np.asarray(r).dtype
+        if not np.abs(r - rt_).max() <= tol * nz(np.abs(mm).max()):
+            return 'R10:mixed-dtype-differs:Projection.' + op + tag, 'max difference %.3e' % np.abs(r - rt_).max()
+    # inverse of one type, diagonal of another
+    n = a.shape[1]
+    base = twin(H(a) @ a.astype(common)) + np.eye(n)
+    inv_b = np.linalg.inv(base)
+    if ca.startswith('i'):
+        inv_x, target0 = np.eye(n, dtype=a.dtype), np.eye(n)
+    else:
+        inv_x, target0 = cast_as(inv_b, ca), base
+    dg = cast_as(np.linspace(0.5, 1.5, n) + 0.25j * np.arange(n), cb)
+    out = call('update_inv_sum_diag', misc.update_inv_sum_diag, inv_x, dg)
+    if np.iscomplexobj(dg) and not np.iscomplexobj(out):
+        return 'R10:truncated-to-first-type:update_inv_sum_diag' + tag, 'complex diagonal, result dtype %s' % out.dtype
+    if np.asarray(out).dtype.kind not in 'fc':
+        return 'R10:integer-result:update_inv_sum_diag' + tag, 'result dtype %s' % np.asarray(out).dtype
+    tgt = target0 + np.diag(twin(dg))
+    err = np.abs(twin(out) @ tgt - np.eye(n)).max()
+    if not err <= max(200 * e, 500 * e * cond2(tgt) ** 2 * n):
+        return 'R10:mixed-dtype-differs:update_inv_sum_diag' + tag, '|out (A+D) - I| = %.3e' % err
+    # conversions: a list whose elements have different Python / numpy types, typed value next to typed bits
+    xs = [1, 2.5, np.float32(4.0), np.int8(8), np.float64(16.5), np.uint16(33)]
+    want = np.array([float(v) for v in xs])
+    for nm, fn in (('linear2dB', conv.linear2dB),):
+        r = np.asarray(fn(xs), dtype=float)
+        w = np.array([conv_refs(float(v), 0.0, 1.0)['linear2dB'] for v in want])
+        if r.shape != w.shape or not np.all(np.abs(r - w) <= 1e-12 * np.maximum(1.0, np.abs(w))):
+            return 'R10:heterogeneous-list:' + nm, '%s(%r) = %r, expected %r' % (nm, xs, r.tolist(), w.tolist())
+    yv = cast_as(np.array([3.0, -7.0, 12.0]), 'f32' if ca in ('f32', 'c64') else 'f64')
+    for bt in ('int', 'int8', 'uint8', 'int64', '0-d'):
+        r = conv.SNR_dB_to_EbN0_dB(yv, mk_index(4, bt))
+        w = np.array([conv_refs(1.0, float(v), 4.0)['SNR_dB_to_EbN0_dB'] for v in yv])
+        if not np.all(np.abs(np.asarray(r, dtype=float) - w) <= (1e-12 if yv.dtype == np.float64 else 2e-6) * np.maximum(1.0, np.abs(w))):
+            return 'R10:mixed-dtype-differs:SNR_dB_to_EbN0_dB:%s+%s' % (yv.dtype, bt), 'got %r expected %r' % (np.asarray(r).tolist(), w.tolist())
+    return None
+
+
+def o_projection_derived(case):
+    """R11 / R13: queries (project / oProject / reflect, repr, static methods called through the instance, copies,
+    pickling) leave Q, oQ and later results unchanged; deep copies and pickle round trips are equal to and
+    independent of the original; results the caller modifies in place do not leak into later results"""
+    import copy
+    import pickle
+    proj, _, _, _ = _impl()
+    a, mm, other = dec(case['A']), dec(case['M']), dec(case['B'])
+    obj = proj.Projection(a.copy())
+    fresh = proj.Projection(a.copy())
+    q0, oq0, a0 = obj.Q.copy(), obj.oQ.copy(), np.array(obj._A, copy=True)
+
+    def unchanged(where):
+        if not (same(obj.Q, q0) and same(obj.oQ, oq0) and same(obj._A, a0)):
+            raise Violation('R11:query-modified-object:' + where, 'Q / oQ / _A changed by %s' % where)
+        for op in ('project', 'oProject', 'reflect'):
+            if not same(getattr(obj, op)(mm), getattr(fresh, op)(mm)):
+                raise Violation('R11:later-result-changed:' + where, '%s differs from a fresh object after %s' % (op, where))
+
+    for step in case['ops']:
+        if step in ('project', 'oProject', 'reflect'):
+            r = getattr(obj, step)(mm)
+            if r.size:
+                r[...] = 7.0                                 # the caller reuses the returned buffer
+            unchanged('caller-writes-into-result-of-' + step)
+        elif step == 'repr':
+            repr(obj), str(obj)
+            unchanged('repr')
+        elif step == 'static':
+            obj.calcProjectionMatrix(other)
+            obj.calcOrthogonalProjectionMatrix(other)
+            unchanged('static-method-through-instance')
+        elif step in ('deepcopy', 'pickle'):
+            child = copy.deepcopy(obj) if step == 'deepcopy' else pickle.loads(pickle.dumps(obj))
+            if not (same(child.Q, q0) and same(child.oQ, oq0) and same(child.project(mm), fresh.project(mm))):
+                return 'R13:%s-is-not-equal' % step, 'the %s child differs from its parent' % step
+            child.Q[...] = 0.0
+            child.oQ[...] = 0.0
+            child._A[...] = 0.0
+            unchanged(step + '-child-modified')
+        elif step == 'copy':
+            child = copy.copy(obj)
+            if not same(child.reflect(mm), fresh.reflect(mm)):
+                return 'R13:copy-is-not-equal', 'the shallow copy behaves differently'
+            child.Q = np.zeros_like(child.Q)                 # rebinding an attribute of the copy
+            unchanged('copy-child-rebound')
+    return None
+
+
+def o_column_order(case):
+    """R12: a subspace does not depend on the ORDER in which its basis vectors are listed; a covariance /
+    Hermitian matrix with users renumbered is the same matrix up to the same renumbering"""
+    proj, met, misc, _ = _impl()
+    a, b = dec(case['A']), dec(case['B'])
+    pa, pb = list(case['permA']), list(case['permB'])
+    tol = max(1e-9, 400 * EPS * max(cond2(a), cond2(b)) ** 2 * a.shape[0])
+    p0, p1 = proj.calcProjectionMatrix(a), proj.calcProjectionMatrix(a[:, pa])
+    if not np.abs(p0 - p1).max() <= tol:
+        return 'R12:column-order-changes-projector', 'max difference %.3e' % np.abs(p0 - p1).max()
+    d0, d1 = three_distances(a, b), three_distances(a[:, pa], b[:, pb])
+    for nm, x, y in zip(('calc_chordal_distance', 'calc_chordal_distance_2', 'principal-angles'), d0, d1):
+        if not abs(x * x - y * y) <= tol:
+            return 'R12:column-order-changes-distance:' + nm, 'd=%r, with permuted columns %r' % (x, y)
+    c = H(a) @ a + np.eye(a.shape[1])
+    cp = c[np.ix_(pa, pa)]
+    w = misc.calc_whitening_matrix(cp)
+    e = np.abs(H(w) @ cp @ w - np.eye(len(pa))).max()
+    if not e <= max(1e-9, 200 * EPS * cond2(c) * len(pa)):
+        return 'R12:renumbering-breaks-whitening', 'max |W^H C W - I| = %.3e' % e
+    n = int(case['n'])
+    for nm, fn in (('peig', misc.peig), ('leig', misc.leig)):
+        d_0, d_1 = fn(c, n)[1], fn(cp, n)[1]
+        if not np.all(np.abs(np.asarray(d_0) - np.asarray(d_1)) <= 1e-9 * nz(np.abs(c).max())):
+            return 'R12:renumbering-changes-eigenvalues:' + nm, '%r vs %r' % (np.asarray(d_0).tolist(), np.asarray(d_1).tolist())
+    rows = list(case['permR'])
+    s0 = misc.least_right_singular_vectors(a, 0)[2]
+    s1 = misc.least_right_singular_vectors(a[rows, :], 0)[2]
+    if not np.all(np.abs(s0 - s1) <= 1e-9 * nz(np.abs(a).max())):
+        return 'R12:row-order-changes-singular-values', '%r vs %r' % (s0.tolist(), s1.tolist())
+    return None
+
+
+
 ORACLES = {
+    'argument-forms': o_argument_forms,
+    'index-forms': o_index_forms,
+    'mixed-types': o_mixed_types,
+    'Projection.derived': o_projection_derived,
+    'column-order': o_column_order,
     'Projection': o_projection,
     'calcProjectionMatrix.invariance': o_projection_invariance,
     'calc_chordal_distance': o_chordal,
@@ -1385,6 +1763,91 @@ def variant_oracles(ctx, n):
         ctx.branch('oracle-R3:independence')
         ctx.branch('oracle-R4:rejected-calls')
         ctx.branch('oracle-R7:object-history')
+
+
+def mixed_bases(g, m, k):
+    """integer valued complex bases whose real parts alone are also well conditioned (so that every cast of
+    MIXES keeps full column rank)"""
+    for _ in range(400):
+        x = g.rs.randint(-3, 4, size=(m, k)) + 1j * g.rs.randint(-3, 4, size=(m, k))
+        if (np.linalg.matrix_rank(x.real) == k and np.linalg.cond(x.real) <= 30 and np.linalg.cond(x) <= 30):
+            return x
+    return np.eye(m, k) * (1 + 0j)
+
+
+def big_cases(seed, size, cplx):
+    """R14: one case per routine with `size` (257, 258, 300, ...) columns / users / eigenvalues"""
+    m = size + 43
+    a, b = genrec(seed, (m, size), cplx), genrec(seed + 1, (m, size), cplx)
+    hm = genrec(seed + 2, (size + 1, size + 1), cplx, 'herm')
+    return [
+        ('Projection', {'A': a, 'M': genrec(seed + 3, (m, 2), cplx)}),
+        ('calc_chordal_distance', {'A': a, 'B': b}),
+        ('gmd', {'A': genrec(seed + 4, (size, size + 1), cplx)}),
+        ('calc_whitening_matrix', {'C': genrec(seed + 5, (size, size), cplx, 'cov')}),
+        ('update_inv_sum_diag', {'A': genrec(seed + 6, (size, size), cplx, 'cov'),
+                                 'd': enc(np.linspace(0.5, 2.0, size))}),
+        ('peig/leig', {'A': hm, 'n': size, 'which': 'peig'}),
+        ('peig/leig', {'A': hm, 'n': size, 'which': 'leig'}),
+        ('peig/leig', {'A': hm, 'n': size + 2, 'which': 'peig'}),
+        ('least_right_singular_vectors', {'A': genrec(seed + 7, (size + 1, m), cplx), 'n': size}),
+        ('least_right_singular_vectors', {'A': genrec(seed + 7, (size + 1, m), cplx), 'n': 10}),
+        ('get_principal_component_matrix', {'A': a, 'k': size}),
+        ('get_principal_component_matrix', {'A': genrec(seed + 8, (size, m), cplx), 'k': size}),
+        ('index-forms', {'A': genrec(seed + 7, (size + 1, m), cplx), 'Hm': hm, 'n': size, 'k': size, 'bits': 4, 'y': 3.0,
+                         'types': [t for t in INDEX_TYPES if t not in ('int8', 'uint8', 'bool')]}),
+        ('conversion.types', {'x': 2.0, 'y': -30.0, 'bits': 4.0,
+                              'form': {'kind': 'array', 'shape': [size], 'dtype': 'float64', 'layout': None}}),
+    ]
+
+
+def r8_oracles(ctx, n):
+    """argument forms, index types, mixed element types, derived objects, order of listing, large counts"""
+    g = Gen(ctx.rng.fork('r8'))
+    rng = g.rng
+    for t in range(n):
+        cplx = t % 2 == 0
+        m = rng.randint(2, 8)
+        k = rng.randint(1, m - 1)
+        a, b = var_base(g, m, k, cplx, None), var_base(g, m, k, cplx, None)
+        run_oracle(ctx, 'argument-forms', {'A': enc(a), 'B': enc(b), 'M': enc(g.raw(m, rng.randint(1, 3), cplx)),
+                                           'n': rng.randint(0, m), 'x': 10.0 ** rng.uniform(-3, 3),
+                                           'y': rng.uniform(-40, 40), 'bits': rng.randint(1, 8)})
+        ctx.branch('oracle-R8:argument-forms')
+        x = g.raw(m, m, cplx)
+        hm = x + H(x)
+        r = var_rect(g, None, cplx)
+        run_oracle(ctx, 'index-forms', {'A': enc(r), 'Hm': enc(hm), 'n': [0, 1, rng.randint(0, m)][t % 3],
+                                        'k': [1, min(r.shape)][t % 2], 'bits': [1, rng.randint(1, 10)][t % 2],
+                                        'y': rng.uniform(-30, 30), 'types': INDEX_TYPES})
+        ctx.branch('oracle-R9:index-types')
+        mix = MIXES[t % len(MIXES)]
+        ma, mb = mixed_bases(g, m, k), mixed_bases(g, m, k)
+        run_oracle(ctx, 'mixed-types', {'A': enc(ma), 'B': enc(mb), 'M': enc(mixed_bases(g, m, 2 if m > 2 else 1)),
+                                        'mix': list(mix)})
+        ctx.branch('oracle-R10:mixed-' + '+'.join(mix))
+        ops = [rng.choice(['project', 'oProject', 'reflect', 'repr', 'static', 'deepcopy', 'pickle', 'copy'])
+               for _ in range(rng.randint(4, 9))] + ['deepcopy', 'pickle', 'static', 'reflect'][t % 4:][:2]
+        run_oracle(ctx, 'Projection.derived', {'A': enc(a), 'B': enc(b), 'M': enc(g.raw(m, 2, cplx)), 'ops': ops})
+        ctx.branch('oracle-R11:queries-do-not-mutate')
+        ctx.branch('oracle-R13:derived-objects')
+        pa, pb, pr = list(range(k)), list(range(k)), list(range(m))
+        rng.shuffle(pa)
+        rng.shuffle(pb)
+        rng.shuffle(pr)
+        run_oracle(ctx, 'column-order', {'A': enc(a), 'B': enc(b), 'permA': pa, 'permB': pb, 'permR': pr,
+                                         'n': rng.randint(0, k)})
+        ctx.branch('oracle-R12:order-of-listing')
+    # R14: one large count per quick run, all of them in thorough
+    sizes = [[257, 258, 300][ctx.seed % 3]] if ctx.tier == 'quick' else [257, 258, 300, 513]
+    for i, size in enumerate(sizes):
+        for call_name, case in big_cases(1000 * ctx.seed + 17 * i + size, size, cplx=(i + ctx.seed) % 2 == 0):
+            run_oracle(ctx, call_name, case, key=('big', size, call_name, repr(case.get('n')), repr(case.get('k'))))
+        ctx.branch('oracle-R14:count>256')
+    if ctx.tier != 'quick':
+        run_oracle(ctx, 'conversion.types', {'x': 2.0, 'y': -30.0, 'bits': 4.0,
+                                             'form': {'kind': 'array', 'shape': [2 ** 16 + 1], 'dtype': 'float32',
+                                                      'layout': 'rev'}}, key=('big', 65537))
 
 
 def boundary_oracles(ctx):
@@ -2115,6 +2578,7 @@ def oracles(ctx, scale):
 def r_class_oracles(ctx, scale):
     variant_oracles(ctx, 30 * scale)
     boundary_oracles(ctx)
+    r8_oracles(ctx, 16 * scale)
 
 
 def exhaustive_shapes(ctx):
